@@ -242,7 +242,14 @@ func (tw *TumblingWindow) Add(data any) {
 	// landing in a triggered window still open for late updates. Drop the rest so
 	// tw.data cannot grow without bound under sustained out-of-order input.
 	if timeChar == types.EventTime && tw.watermark != nil && tw.watermark.IsEventTimeLate(eventTime) {
+		// closeTime of the event's own window: once the watermark has reached it the
+		// event is beyond AllowedLateness. Decide that on the watermark itself, not on
+		// how far the trigger goroutine has caught up with it — otherwise the same
+		// late event is dropped or aggregated depending on goroutine scheduling.
+		closeTime := alignWindowStart(eventTime, tw.size).Add(tw.size).Add(tw.config.AllowedLateness)
 		switch {
+		case !tw.watermark.GetCurrentWatermark().Before(closeTime):
+			tw.dropLastRow()
 		case tw.initialized && tw.currentSlot != nil && tw.currentSlot.Contains(eventTime):
 			// watermark advanced past the window start but the window has not
 			// triggered yet; the row triggers normally, keep it.
